@@ -999,6 +999,82 @@ fn setup(p: &Prog, suffix_mode: u8) -> Option<Setup> {
     })
 }
 
+/// Suffix rule (tera.rs set_templates_auto_escape / autoescape_on): a template is autoescaped iff its
+/// name ends with one of the configured suffixes, compared as given (case-sensitive, byte-wise),
+/// whether the suffixes were configured before or after the template was added, and again after a
+/// later unrelated add. Implementation-side oracle over names x suffix lists; also the override of
+/// the built-in `safe` filter by a user filter that is NOT registered as safe (the name must not
+/// be what decides).
+fn suffix_rule_sweep(meta: &mut Meta) {
+    const NAMES: &[&str] = &["a.html", "A.HTML", "INDEX.HTM", "index.htm", "x.Html", "mail.Body", "mail.body", "noext", ".html",
+        "a.html.bak", "dir/é.htmé", "a.xml", "a.XML", "ROW.TPL", "row.tpl", "x.j2", "aİ.İ", "html", "l"];
+    const LISTS: &[Option<&[&str]>] = &[None, Some(&[".html"]), Some(&[".HTM"]), Some(&[".Body"]), Some(&[".TPL", ".HTM"]), Some(&[""]),
+        Some(&["html"]), Some(&["l"]), Some(&[".htmé"]), Some(&[]), Some(&["a.html"]), Some(&["xa.html"]), Some(&[".İ"]),
+        Some(&[".XML", ".Html"]), Some(&[".j2", ".tpl"])];
+    let raw = "<&>'\"";
+    let escd = "&lt;&amp;&gt;&#39;&quot;";
+    let mut ctx = tera::Context::new();
+    ctx.insert("v", raw);
+    for name in NAMES {
+        for list in LISTS {
+            let sufs: Vec<&str> = match list { None => vec![".html", ".htm", ".xml"], Some(l) => l.to_vec() };
+            let want_on = sufs.iter().any(|s| name.ends_with(s));
+            for order in 0..3u8 {
+                // 0: configure, then add; 1: add, then configure; 2: configure, add, then add another template
+                let out = guarded(|| {
+                    let mut t = Tera::default();
+                    if order != 1 { if let Some(l) = list { t.autoescape_on(l.to_vec()); } }
+                    t.add_raw_template(name, "{{ v }}|")?;
+                    if order == 1 { if let Some(l) = list { t.autoescape_on(l.to_vec()); } }
+                    if order == 2 { t.add_raw_template("zz_other.html", "x")?; }
+                    t.render(name, &ctx)
+                });
+                meta.oracle_checks += 1;
+                let expect = format!("{}|", if want_on { escd } else { raw });
+                let ok = matches!(&out, Outcome::Ok(s) if *s == expect);
+                if !ok {
+                    meta.oracle_fail("autoescape flag differs from `name ends with a configured suffix (as given)`", None,
+                        json!({"template": name, "suffixes": sufs, "configured": (["before add", "after add", "before add, then another add"][order as usize]),
+                               "expected": expect, "got": format!("{out:?}")}));
+                }
+            }
+        }
+    }
+    // a user filter registered under the name of a built-in safe filter is not safe unless it says so
+    const BUILTIN_FILTERS: [&str; 36] = [
+        "safe", "default", "upper", "lower", "wordcount", "escape_html", "escape_xml", "newlines_to_br", "pluralize",
+        "trim", "trim_start", "trim_end", "replace", "capitalize", "title", "truncate", "indent", "str", "int", "float",
+        "length", "reverse", "split", "abs", "round", "first", "last", "nth", "join", "sort", "unique", "get", "values",
+        "keys", "pairs", "group_by",
+    ];
+    let mut over: Vec<(&str, String)> = Vec::new();
+    for f in BUILTIN_FILTERS {
+        over.push((f, format!("{{{{ v | {f} }}}}")));
+        over.push((f, format!("{{% set t = v | {f} %}}{{{{ t }}}}")));
+        if f != "safe" {
+            // the body is captured (already escaped once: here a value marked safe by the built-in), the
+            // user filter builds a new, unsafe string from it, which is escaped when the section is written
+            over.push((f, format!("{{% filter {f} %}}{{{{ v | safe }}}}{{% endfilter %}}")));
+        }
+    }
+    for (fname, tpl) in over.iter().map(|(a, b)| (*a, b.as_str())) {
+        let is_section = tpl.starts_with("{% filter");
+        let out = guarded(|| {
+            let mut t = Tera::default();
+            t.register_filter(fname, |v: &str, _: tera::Kwargs, _: &tera::State| format!("[{v}]"));
+            t.add_raw_template("p.html", tpl)?;
+            t.render("p.html", &ctx)
+        });
+        meta.oracle_checks += 1;
+        let _ = is_section;
+        let expect = format!("[{escd}]");
+        if !matches!(&out, Outcome::Ok(s) if *s == expect) {
+            meta.oracle_fail("a user filter that is not registered as safe, registered under the name of a built-in safe filter, must have its result escaped", None,
+                json!({"filter": fname, "template": tpl, "expected": expect, "got": format!("{out:?}")}));
+        }
+    }
+}
+
 fn main() {
     let args = parse_args();
     silence_panics();
@@ -1325,6 +1401,7 @@ fn main() {
     meta.extra.insert("sweep_exhaustive".into(), json!(thorough));
     meta.extra.insert("construct_distribution".into(), json!(distribution));
     meta.families.push(sink.finish());
+    suffix_rule_sweep(&mut meta);
     meta.write(&args.out);
 }
 
